@@ -72,6 +72,7 @@ MC_DEPS = {
     "Fault": ["Hashbrown.tla", "Griddle.tla", "GriddleCount.tla", "MCGriddle.tla"],
     "Iter": ["Hashbrown.tla", "Griddle.tla", "GriddleCount.tla", "MCGriddle.tla", "MCIter.tla"],
     "Par": ["MCPar.tla"],
+    "Cursor": ["MCCursor.tla"],
     "Overflow": ["Hashbrown.tla", "GriddleCount.tla", "MCCount.tla"],
     "OverflowDbg": ["Hashbrown.tla", "GriddleCount.tla", "MCCount.tla"],
 }
@@ -91,6 +92,12 @@ MC = {
     "Par": {
         "quick": ("MCPar", "MCParQ", 4, 3600),
         "thorough": ("MCPar", "MCPar", 8, 7200),
+    },
+    # C05 at bucket level: hashbrown's RawIter / reflect_toggle_full transcribed, and griddle's use of it on
+    # the old table (carry, remove, replace_bucket_with with snapshot/restore): every occupancy, every order
+    "Cursor": {
+        "quick": ("MCCursor", "MCCursor16", 4, 3600),
+        "thorough": ("MCCursor", "MCCursor20", 8, 7200),
     },
     "Fault": {
         "quick": ("MCGriddle", "MCFault", 6, 3600),
@@ -123,7 +130,7 @@ PROPS = {
     "C02": dict(suites=["sim_plain", "sim_heap", "big_plain", "big_heap", "big_collide", "tomb_plain", "tomb_heap", "core_plain", "rel_plain", "core_heap", "defects"], mc=["CountR8", "CountR4"]),
     "C03": dict(suites=["sim_plain", "sim_heap", "big_plain", "big_heap", "big_collide", "tomb_plain", "tomb_heap", "core_plain", "core_heap", "rel_plain", "set_heap", "defects"], mc=["Small", "CountR8"]),
     "C04": dict(suites=["sim_plain", "sim_heap", "big_plain", "big_heap", "big_collide", "tomb_plain", "tomb_heap", "core_plain", "rel_plain", "limits_dbg", "limits_rel", "two_heap", "defects"], mc=["Small", "CountR8", "CountR4"], apalache=True),
-    "C05": dict(suites=["sim_plain", "sim_heap", "fault_heap", "fault_heap_rel", "tomb_plain", "tomb_heap", "core_heap", "rel_heap", "core_zst", "set_heap", "set_zst", "two_heap", "two_plain_rel", "defects"], mc=["Iter", "Small", "CountR8"], asan=["two_heap", "two_plain_rel", "core_heap", "fault_heap", "set_heap", "tomb_heap", "defects"], miri=True),
+    "C05": dict(suites=["sim_plain", "sim_heap", "fault_heap", "fault_heap_rel", "tomb_plain", "tomb_heap", "core_heap", "rel_heap", "core_zst", "set_heap", "set_zst", "two_heap", "two_plain_rel", "defects"], mc=["Cursor", "Iter", "Small", "CountR8"], asan=["two_heap", "two_plain_rel", "core_heap", "fault_heap", "set_heap", "tomb_heap", "defects"], miri=True),
     "C06": dict(suites=["entry_heap", "entry_plain", "core_heap", "rel_heap", "two_heap", "set_heap", "set_two", "defects"], mc=["Small"]),
     # after an injected panic the semantic/safety monitors are part of "the map stays memory-safe and
     # self-consistent, later operations behave normally": their failures after a fault count for C07
